@@ -4,13 +4,13 @@ import json, os
 ROOT = os.path.dirname(os.path.dirname(os.path.abspath(__file__)))
 
 CHECKS = {
- "C01": ("round-trip monitor: decode(encode(v)) ok, re-encode byte-identical, library PartialEq, hex path == bytes path, over typed generators (all 2^18 body presence masks, width lattice, sized random values of ~125 types)", "4/C01"),
+ "C01": ("round-trip monitor: decode(encode(v)) ok, re-encode byte-identical, library PartialEq, hex path == bytes path, over typed generators (all 2^18 body presence masks, width lattice, sized random values of ~125 types, Mint values naming a policy twice)", "4/C01"),
  "C02": ("abort monitor: every parser call runs under catch_unwind with a panic hook that attributes the panic to the innermost library frame; calls that may kill the process (huge declared lengths, deep nesting) run in forked children whose exit status / signal is classified; unexpected fatal signals are caught by a crash marker and the shard is resumed; every accepted value is re-serialized and the bytes re-read by the independent CBOR reader; release and overflow-checking builds", "4/C02"),
  "C03": ("independent CBOR reader + schema-directed Conway CDDL validator + encoding-discipline checker (vkit, shares no code with the library or cbor_event) run over the bytes the library emits for typed values and builder transactions", "4/C03"),
- "C04": ("valid transactions re-encoded NON-canonically by the harness's own CBOR writer (17 mutation kinds: indefinite lengths, non-minimal heads, permuted keys, untagged/duplicated sets, chunked strings, empty-but-present fields, ...) are loaded byte-preservingly; body / aux / untouched witness-field spans of the output are compared byte-for-byte with the input spans found by the independent reader, the hash with Blake2b-256 of the body span, over all signature-operation sequences of length <= 2 (exhaustive) and sampled up to 4; Plutus datums stand-alone and embedded in 7 containers", "4/C04"),
+ "C04": ("valid transactions re-encoded NON-canonically by the harness's own CBOR writer (17 mutation kinds: indefinite lengths, non-minimal heads, permuted keys, untagged/duplicated sets, chunked strings, empty-but-present fields, ...) are loaded byte-preservingly; body / aux / untouched witness-field spans of the output are compared byte-for-byte with the input spans found by the independent reader, the hash with Blake2b-256 of the body span, over all signature-operation sequences of length <= 2 (exhaustive) and sampled up to 4; Plutus datums stand-alone and embedded in 7 containers; inputs that are one CBOR item but not an admissible transaction in one part (over-long auxiliary-data array, unknown keys) must be refused or preserved", "4/C04"),
  "C05": ("ledger preservation-of-value (consumed == produced, lovelace and every asset) evaluated by an independent ledger model on the built transaction bytes re-read by the independent CBOR reader against the scenario's UTxO table, over generated builder histories", "4/C05"),
  "C06": ("the built transaction is really signed with exactly the distinct required keys (harness key ring) and the Conway minimum fee (linear + ex-unit cost + tiered reference-script fee, exact rationals) is recomputed on the signed bytes; set_min_fee / set_fee requests checked on the emitted fee field", "4/C06"),
- "C07": ("min_ada_for_output judged against coins_per_byte x (160 + size) with sizes measured on emitted bytes, plus every output / value size / signed size of builder-produced transactions against the scenario parameters", "4/C07"),
+ "C07": ("min_ada_for_output judged against coins_per_byte x (160 + size) with sizes measured on emitted bytes, plus every output / value size / signed size of builder-produced transactions against the scenario parameters; coins-per-byte tuned per output so that the minimum sits next to a CBOR width boundary of the coin", "4/C07"),
  "C09": ("auxiliary-data hash and script-integrity hash recomputed from the emitted witness-set and auxiliary-data bytes with an own language-view encoder; stand-alone hashing helpers against the same definitions", "4/C09"),
  "C10": ("marker integers planted in redeemer data identify the item each Plutus witness was attached to; every emitted (tag, index) is resolved against the emitted body under the ledger's ordering rules (sorted inputs, sorted policies, certificate order, reward accounts and voters in ledger order with script credentials first)", "4/C10"),
  "C11": ("own address codecs (header/var-nat/Bech32/Base58/CRC32/Byron CBOR written with the independent CBOR writer) and a three-valued reference classifier (must-accept / must-reject / don't-care) compared with the stand-alone parsers on all 256 headers x lengths 0..=80, and with the decoders of outputs/bodies/transactions/UTxOs embedding the same byte strings", "4/C11"),
